@@ -30,6 +30,7 @@ ASSUMPTIONS = [
 ]
 
 LINKS = ["direct", "calc", "tcalc", "wvar", "calc2", "kw", "mixed"]
+VN = ["zv0", "mv1", "av2"]  # variable names: children sort before their parents
 FN = {"neg": lambda x: -x, "twice": lambda x: 2.0 * x, "half": lambda x: 0.5 * x}
 
 
@@ -39,7 +40,7 @@ def bounds(tier):
 
 def units(tier, seed):
     seeds = [0, 1] if tier == "quick" else [0, 1, seed + 2]
-    us = []
+    us = [{"cases": [], "seeds": seeds, "diamond2": True}]
     # depth 2: mu -> v0 -> v1
     shapes2 = [((), ()), ((), (3,)), ((), (2, 3)), ((3,), (3,)), ((3,), (2, 3))]
     for l0 in LINKS:
@@ -47,6 +48,9 @@ def units(tier, seed):
         for l1 in LINKS:
             for sh in shapes2:
                 cases.append({"links": [l0, l1], "shapes": [list(sh[0]), list(sh[1])]})
+            if l0 in ("direct", "calc"):
+                cases.append({"links": [l0, l1], "shapes": [[], []], "int_init": True})
+                cases.append({"links": [l0, l1], "shapes": [[3], [2, 3]], "int_init": True})
             if l0 in ("direct", "calc", "kw"):
                 # multivariate root (event shape (3,)): value shapes (3,) and (2,3)
                 cases.append({"links": [l0, l1], "shapes": [[3], [3]], "mv": True})
@@ -143,14 +147,14 @@ def build(case, log):
             if case.get("mv"):
                 # event rank 1: v0 ~ MVNDiag(loc = link(mu) * ones(3), scale_diag = ones(3))
                 mv = lambda loc, scale_diag: tfd.MultivariateNormalDiag(loc=loc * jnp.ones(3), scale_diag=scale_diag)  # noqa
-                base = lambda *a, _k=k, **kws: Rec(f"v{_k}", log, mv, *a, **kws)  # noqa
+                base = lambda *a, _k=k, **kws: Rec(VN[_k], log, mv, *a, **kws)  # noqa
                 dist = lsl.Dist(base, loc=node, scale_diag=jnp.ones(3, dtype=jnp.float32))
             elif kw == "mixed":
                 nrm = lambda scale, loc: tfd.Normal(loc=loc, scale=scale)  # noqa  positional scale, keyword loc
-                base = lambda *a, _k=k, **kws: Rec(f"v{_k}", log, nrm, *a, **kws)  # noqa
+                base = lambda *a, _k=k, **kws: Rec(VN[_k], log, nrm, *a, **kws)  # noqa
                 dist = lsl.Dist(base, lsl.Value(jnp.float32(1.0), _name=f"one{k}"), loc=node)
             else:
-                base = lambda *a, _k=k, **kws: Rec(f"v{_k}", log, tfd.Normal, *a, **kws)  # noqa
+                base = lambda *a, _k=k, **kws: Rec(VN[_k], log, tfd.Normal, *a, **kws)  # noqa
                 dist = lsl.Dist(base, loc=node, scale=jnp.float32(1.0)) if kw else lsl.Dist(base, node, jnp.float32(1.0))
             reffn.append(("normal", f, None))
         else:
@@ -159,19 +163,22 @@ def build(case, log):
                 extra = vs[0]
                 comb = lsl.Calc(lambda a, b: a + 4.0 * jnp.sum(b), node, extra, _name="comb")
                 h["link_nodes"].append((comb, [node, extra], None))
-                base = lambda *a, _k=k, **kws: Rec(f"v{_k}", log, tfd.Deterministic, *a, **kws)  # noqa
+                base = lambda *a, _k=k, **kws: Rec(VN[_k], log, tfd.Deterministic, *a, **kws)  # noqa
                 dist = lsl.Dist(base, loc=comb)
                 reffn.append(("det-diamond", f, None))
             else:
                 if kw == "mixed":
                     det = lambda dummy, loc: tfd.Deterministic(loc=loc)  # noqa  positional constant, keyword loc
-                    base = lambda *a, _k=k, **kws: Rec(f"v{_k}", log, det, *a, **kws)  # noqa
+                    base = lambda *a, _k=k, **kws: Rec(VN[_k], log, det, *a, **kws)  # noqa
                     dist = lsl.Dist(base, lsl.Value(jnp.float32(7.0), _name=f"dummy{k}"), loc=node)
                 else:
-                    base = lambda *a, _k=k, **kws: Rec(f"v{_k}", log, tfd.Deterministic, *a, **kws)  # noqa
+                    base = lambda *a, _k=k, **kws: Rec(VN[_k], log, tfd.Deterministic, *a, **kws)  # noqa
                     dist = lsl.Dist(base, loc=node) if kw else lsl.Dist(base, node)
                 reffn.append(("det", f, None))
-        v = lsl.Var(jnp.full(shp, jnp.float32(0.25) * (k + 1)), dist, name=f"v{k}")
+        init = jnp.full(shp, jnp.float32(0.25) * (k + 1))
+        if case.get("int_init") and k == 0:
+            init = jnp.zeros(shp, dtype=jnp.int32)  # a continuous variable that happens to hold integers
+        v = lsl.Var(init, dist, name=VN[k])
         vs.append(v)
         parent = v
     wbase = lambda *a, **kws: Rec("w", log, tfd.Normal, *a, **kws)  # noqa
@@ -187,13 +194,13 @@ def run_case(res, case, seeds):
     import numpy as np
 
     n = len(case["links"])
-    names = [f"v{k}" for k in range(n)]
+    names = [VN[k] for k in range(n)]
     styles = ["var", "dist", "proxy"]
 
     def skip_names(subset, style):
         out = []
         for k in subset:
-            out.append({"var": f"v{k}", "dist": f"v{k}_log_prob", "proxy": f"v{k}_var_value"}[style])
+            out.append({"var": VN[k], "dist": f"{VN[k]}_log_prob", "proxy": f"{VN[k]}_var_value"}[style])
         return out
 
     for r in range(n + 1):
@@ -252,7 +259,7 @@ def run_case(res, case, seeds):
                             if any(after[k].shape != before[k].shape for k in range(n)):
                                 continue  # reported above; nothing else can be evaluated on mis-shaped values
                             drawn = [lbl for lbl, _ in log if lbl != "w"]
-                            want_drawn = [f"v{k}" for k in range(n) if k not in subset]
+                            want_drawn = [VN[k] for k in range(n) if k not in subset]
                             if sorted(drawn) != sorted(want_drawn):
                                 res.violation("simulate", f"drawn-set-{style}", cname, f"variables drawn {drawn} != non-skipped {want_drawn} ({cname})")
                                 continue
@@ -266,7 +273,7 @@ def run_case(res, case, seeds):
                                 kind, f, _ = fns[k]
                                 if k == 0:
                                     exp_loc = f(mu_val)
-                                    got = logd["v0"]
+                                    got = logd[VN[0]]
                                     if case["links"][0] == "mixed":
                                         got = got[1:]  # (scale, loc): positional constant first
                                     # Normal(loc, scale): loc is first positional or kw (sorted: loc, scale)
@@ -274,6 +281,8 @@ def run_case(res, case, seeds):
                                         res.violation("simulate", "stale-parameter-root", cname, f"v0 drawn with loc {got[0]} but link(mu)={exp_loc} ({cname})")
                                     if np.array_equal(after[0], before[0]):
                                         res.violation("simulate", "root-not-drawn", cname, f"v0 unchanged by simulate ({cname})")
+                                    if case.get("int_init") and np.all(after[0] == np.round(after[0])):
+                                        res.violation("simulate", "draw-truncated-to-integer", cname, f"v0 ~ Normal held integer zeros before simulate and holds only integers {after[0].ravel()[:4]} afterwards: the draw was cast to the old dtype ({cname})")
                                 else:
                                     par = after[k - 1]
                                     exp = f(par)
@@ -328,9 +337,63 @@ def run_case(res, case, seeds):
     res.states += 1
 
 
+def run_diamond2(res, seeds):
+    """
+    a ~ N(0,1), b ~ N(0,1); t = Calc(h, b); y ~ N(loc = Calc(add, t, a), scale = Calc(g, a)).
+    A shared ancestor (a) reachable on two paths, with a further cached Calc (t) that is only
+    reachable through the FIRST parameter: every parameter of y must see the NEW a and b.
+    All four argument orders of the two-input Calc / the Dist are enumerated.
+    """
+    import jax
+    import jax.numpy as jnp
+    import liesel.model as lsl
+    import numpy as np
+    import tensorflow_probability.substrates.jax.distributions as tfd
+
+    for order in range(4):
+        for auto in (True, False):
+            for s in seeds:
+                log = []
+                a = lsl.Var(jnp.float32(0.1), lsl.Dist(lambda *x: Rec("a", log, tfd.Normal, *x), jnp.float32(0.0), jnp.float32(1.0)), name="pa")
+                b = lsl.Var(jnp.float32(0.2), lsl.Dist(lambda *x: Rec("b", log, tfd.Normal, *x), jnp.float32(0.0), jnp.float32(1.0)), name="pb")
+                t = lsl.Calc(lambda v: 2.0 * v, b, _name="t")
+                loc = lsl.Calc(lambda u, v: u + v, t, a, _name="loc") if order % 2 == 0 else lsl.Calc(lambda v, u: u + v, a, t, _name="loc")
+                scale = lsl.Calc(lambda v: 1.0 + 0.0 * v + jnp.abs(v) * 0.5, a, _name="scale")
+                mk = lambda **kw: Rec("y", log, tfd.Normal, **kw)  # noqa
+                dist = lsl.Dist(mk, loc=loc, scale=scale) if order < 2 else lsl.Dist(mk, scale=scale, loc=loc)
+                y = lsl.Var(jnp.float32(0.3), dist, name="ay")
+                m = lsl.GraphBuilder().add(y).build_model()
+                m.auto_update = auto
+                log.clear()
+                cname = {"case": "diamond2", "order": order, "auto": auto, "seed": s}
+                try:
+                    m.simulate(jax.random.PRNGKey(s))
+                except Exception as e:
+                    if not core.raised_in_repo(e, transparent=("log_prob", "sample", "<lambda>")):
+                        raise
+                    res.violation("simulate", "simulate-or-update-raises", cname, f"simulate failed: {type(e).__name__}: {e}")
+                    continue
+                res.executions += 1
+                res.transitions += 1
+                a_new, b_new = np.float32(a.value), np.float32(b.value)
+                got = dict(log).get("y")
+                if got is None:
+                    res.violation("simulate", "drawn-set-var", cname, "y was not drawn")
+                    continue
+                want_loc = np.float32(np.float32(2.0) * b_new + a_new)
+                want_scale = np.float32(1.0 + 0.0 * a_new + abs(a_new) * 0.5)
+                got_loc, got_scale = np.float32(got[0]), np.float32(got[1])  # kwargs sorted: loc, scale
+                if not (np.isclose(got_loc, want_loc, rtol=1e-6, atol=1e-6) and np.isclose(got_scale, want_scale, rtol=1e-6, atol=1e-6)):
+                    res.violation("simulate", f"stale-parameter-diamond-auto{int(auto)}", cname, f"y drawn with (loc, scale) = ({got_loc}, {got_scale}) but the newly drawn ancestors a={a_new}, b={b_new} give ({want_loc}, {want_scale}) ({cname})")
+                res.outcome("diamond2", order, auto)
+    res.states += 1
+
+
 def run_unit(unit):
     core.assert_repo()
     res = core.UnitResult(unit)
+    if unit.get("diamond2"):
+        run_diamond2(res, unit["seeds"])
     for case in unit["cases"]:
         run_case(res, case, unit["seeds"])
         res.sample({"case": case, "seeds": unit["seeds"]}, limit=1)
